@@ -377,6 +377,8 @@ class datetime:
         if m:
             ident = int(m.group(1))
             reg = registry()
+            if ident not in reg:
+                reg = _GLOBAL_REG            # placeholders created by a harness before the run started
             if ident in reg:
                 tz = timezone.utc if r.tzinfo is not None else None
                 return cls(_us=reg[ident], tzinfo=tz)
